@@ -246,8 +246,28 @@ func opReach(fn *ssa.Function, isOp func(v ssa.Value) bool, k int64) []*ssa.Basi
 // condReach: the blocks a function can execute when the conditions that `decide` knows have the
 // value it gives them; every other branch is explored both ways.
 func condReach(fn *ssa.Function, decide func(v ssa.Value) (bool, bool)) []*ssa.BasicBlock {
+	blocks, _ := condReachEdges(fn, decide)
+	return blocks
+}
+
+// opReachEdges: like opReach, and the control-flow edges that were taken.
+func opReachEdges(fn *ssa.Function, isOp func(v ssa.Value) bool, k int64) ([]*ssa.BasicBlock, map[[2]*ssa.BasicBlock]bool) {
+	var edges map[[2]*ssa.BasicBlock]bool
+	reachEdgeSink = func(e map[[2]*ssa.BasicBlock]bool) { edges = e }
+	blocks := opReach(fn, isOp, k)
+	reachEdgeSink = nil
+	return blocks, edges
+}
+
+var reachEdgeSink func(map[[2]*ssa.BasicBlock]bool)
+
+func condReachEdges(fn *ssa.Function, decide func(v ssa.Value) (bool, bool)) ([]*ssa.BasicBlock, map[[2]*ssa.BasicBlock]bool) {
+	edges := map[[2]*ssa.BasicBlock]bool{}
+	if reachEdgeSink != nil {
+		reachEdgeSink(edges)
+	}
 	if len(fn.Blocks) == 0 {
-		return nil
+		return nil, edges
 	}
 	// paths are enumerated (loops cut at the first revisit on a path) so that a boolean
 	// computed by && / || into a variable, which go/ssa represents as a phi, is known
@@ -257,6 +277,9 @@ func condReach(fn *ssa.Function, decide func(v ssa.Value) (bool, bool)) []*ssa.B
 	budget := 200000
 	var walk func(b, prev *ssa.BasicBlock, onPath map[*ssa.BasicBlock]bool, phis map[*ssa.Phi]ssa.Value)
 	walk = func(b, prev *ssa.BasicBlock, onPath map[*ssa.BasicBlock]bool, phis map[*ssa.Phi]ssa.Value) {
+		if prev != nil {
+			edges[[2]*ssa.BasicBlock{prev, b}] = true
+		}
 		if budget <= 0 || onPath[b] {
 			return
 		}
@@ -318,7 +341,7 @@ func condReach(fn *ssa.Function, decide func(v ssa.Value) (bool, bool)) []*ssa.B
 		}
 	}
 	walk(fn.Blocks[0], nil, map[*ssa.BasicBlock]bool{}, map[*ssa.Phi]ssa.Value{})
-	return out
+	return out, edges
 }
 
 // nameReach: the blocks a decoder function can execute for the mnemonic `name`: tests of
